@@ -36,13 +36,17 @@ Proof. exact trigger_sends_request_refuted. Qed.
 Print Assumptions C04_trigger_sends_request_refuted.
 
 (* Integrated model Comp/Core.v (run in lock-step with the real gateway on every check), every sequence of stimuli and
-   scheduler grants: a connection is sent the resource's data only after the service granted that connection's access request. *)
-From RG Require Comp.Conv Comp.Core Proofs.CoreProofs.
-Theorem C04_core_response_needs_grant :
+   scheduler grants: a response that carries the resource's data is sent to a connection only if the service answered the
+   access request made for one of that connection's Subscription objects with a get grant. *)
+From RG Require Comp.Conv Comp.Core Proofs.CoreProofsABC Proofs.CoreProofsDEF.
+Theorem C04_core_data_needs_grant :
   forall (val upd : Type) (app : upd -> val -> val) (norm : upd -> val -> option upd) (d : val),
   (forall u v, norm u v = None -> app u v = v) ->
   (forall u v u', norm u v = Some u' -> app u' v = app u v) ->
-  forall t ops c,
-  Core.resps val upd c (snd (Core.exec val upd app norm d t ops)) <> [] -> In (Core.MqAccess upd c) ops.
-Proof. exact CoreProofs.core_response_needs_grant. Qed.
-Print Assumptions C04_core_response_needs_grant.
+  forall t ops c o,
+  let s := fst (Core.exec val upd app norm d t ops) in let outs := snd (Core.exec val upd app norm d t ops) in
+  In o outs -> Core.has_data val upd c o = true ->
+  exists i, i < Core.next val upd s /\ Core.owner (Core.insts val upd s i) = c /\ Core.ans (Core.insts val upd s i) = Some true /\
+            In (Core.MqAccess upd i true) ops.
+Proof. exact CoreProofsDEF.core_data_needs_grant. Qed.
+Print Assumptions C04_core_data_needs_grant.
